@@ -14,6 +14,7 @@ S21, S29, S32, S35) on the real code. The model follows /repo after the repairs 
 import SwimVerif.Proofs.FormReset
 import SwimVerif.Model.FormIO
 import SwimVerif.Proofs.MsgPackBytes
+import SwimVerif.Proofs.MsgPackNorm
 
 set_option linter.unusedVariables false
 namespace SwimVerif.Form
@@ -310,13 +311,60 @@ theorem C16_msgpack_value_never_starts_with_array (hp : PrimRT) (hn : NameRT) :
     ∀ v, mpOk v = true → ∃ m r, wV v = m :: r ∧ isArrMarker m = false :=
   fun v hok => ((goodV hp hn lenRT v) hok).1
 
-/-- Open: the token level (`write_sint`/`write_u64` ↔ the ten integer markers, str/bin/ext size classes, UTF-8,
-big-integer magnitudes).  Exercised by the correspondence engine `form-msgpack` only. -/
-def C16_msgpack_tokens_open : Prop := PrimRT ∧ NameRT
+/-- The token level: every primitive (non-record) value of the fragment — machine integers (`write_sint` / `write_u64`
+↔ fixpos, `cc cd ce cf`, fixneg, `d0 d1 d2 d3`), nil, booleans, text (fixstr / str8 / str16 / str32 + strict UTF-8
+decode ∘ encode), blobs (bin8 / bin16 / bin32), big integers (fixext 1/2/4/8/16, ext8 / ext16 / ext32, type byte, sign
+byte, minimal big-endian magnitude) — is written starting with a marker that is neither a map nor an array marker and
+is read back as `mpNorm v`, leaving the rest; attribute names round-trip through `read_str_len` + `from_utf8`. -/
+theorem C16_msgpack_tokens : PrimRT ∧ NameRT := ⟨primRT, nameRT⟩
 
-/-- Open (follows from `C16_msgpack_tokens_open`, `depthV v ≤ (wV v).length` and `mpOk v → wFits v`). -/
-def C16_msgpack_value_roundtrip_open : Prop :=
-  ∀ v, mpOk v = true → ∀ rest, ∃ bs, mpWrite v = some bs ∧ mpRead (bs ++ rest) = some (mpNorm v, rest)
+/-- Per token class (the lemmas `C16_msgpack_tokens` is assembled from). -/
+theorem C16_msgpack_int_token (n : Int) (h1 : -9223372036854775808 ≤ n) (h2 : n ≤ 18446744073709551615) :
+    TokRT (wInt n) (mkInt n) := wInt_rt n h1 h2
+theorem C16_msgpack_utf8_roundtrip (s : List Char) : utf8Dec (utf8Enc s) = some s := utf8Dec_enc s
+theorem C16_msgpack_magnitude_roundtrip (m : Nat) : beVal (natBytes m) = m ∧ (natBytes m).length = byteLen m :=
+  ⟨beVal_natBytes m, natBytes_length m⟩
+
+/-- Round trip of the byte model for ALL values of the fragment (no floats, lengths `< 2^32`), unconditionally: the
+writer succeeds, and reading the written bytes followed by anything yields the written value up to the re-kinding of
+machine integers (`mpNorm`) and exactly the unread rest (so encodings are prefix-free). -/
+theorem C16_msgpack_value_roundtrip :
+    ∀ v, mpOk v = true → ∀ rest, ∃ bs, mpWrite v = some bs ∧ mpRead (bs ++ rest) = some (mpNorm v, rest) :=
+  mp_roundtrip
+
+/-- The same with explicit fuel and the token hypotheses discharged. -/
+theorem C16_msgpack_value_roundtrip_fuel :
+    ∀ v, mpOk v = true → ∀ rest f, depthV v ≤ f → rdV f (wV v ++ rest) = some (mpNorm v, rest) :=
+  C16_msgpack_value_roundtrip_of_tokens primRT nameRT
+
+/-- No written value starts with an array marker (unconditional form). -/
+theorem C16_msgpack_value_not_array :
+    ∀ v, mpOk v = true → ∃ m r, wV v = m :: r ∧ isArrMarker m = false :=
+  C16_msgpack_value_never_starts_with_array primRT nameRT
+
+/-- The fuel the reader model needs: `2 * length + 1` always suffices for a written value … -/
+theorem C16_msgpack_fuel_suffices (v : Value) : depthV v + 1 ≤ 2 * (wV v).length := fuelV v
+
+/-- … while `length + 1` (the fuel of the model before this proof) does NOT: a nesting level costs three units of fuel
+and may cost only two bytes.  `80 91 80 91 c0` is `{ { Extant } }` written by the real writer and read back by the real
+reader (corpus/C16/form-msgpack-nested-fuel.ops); with fuel `5 + 1` the model rejected it, i.e. the previous
+`C16_msgpack_value_roundtrip_open` was FALSE of the previous model (a model defect, not a code defect). -/
+theorem C16_msgpack_fuel_len_plus_one_fails :
+    mpOk (.record .nil (.val (.record .nil (.val .extant .nil)) .nil)) = true ∧
+    wV (.record .nil (.val (.record .nil (.val .extant .nil)) .nil)) = [128, 145, 128, 145, 192] ∧
+    rdV (([128, 145, 128, 145, 192] : List Nat).length + 1) [128, 145, 128, 145, 192] = none ∧
+    mpRead [128, 145, 128, 145, 192] = some (.record .nil (.val (.record .nil (.val .extant .nil)) .nil), []) := by
+  decide
+
+/-- `Value::eq` (`ReconEq.veq`: integer kinds are ignored) does not see the normalisation: what is read back is equal
+to what was written. -/
+theorem C16_msgpack_norm_equiv (v : Value) : SwimVerif.ReconEq.veq (mpNorm v) v = true := veq_norm v
+
+/-- Round trip up to `Value::eq`. -/
+theorem C16_msgpack_value_roundtrip_eq (v : Value) (hok : mpOk v = true) (rest : List Nat) :
+    ∃ bs w, mpWrite v = some bs ∧ mpRead (bs ++ rest) = some (w, rest) ∧ SwimVerif.ReconEq.veq w v = true := by
+  obtain ⟨bs, h1, h2⟩ := mp_roundtrip v hok rest
+  exact ⟨bs, mpNorm v, h1, h2, veq_norm v⟩
 
 /-- Open: a strict prefix of a written value is an error, never a different value. -/
 def C16_msgpack_truncated_rejected_open : Prop :=
